@@ -55,6 +55,7 @@ struct H {
     std::set<std::string> labels;
     std::vector<Dir> dirs;
     int waiting_writers = 0, waiting_readers = 0;
+    std::atomic<long> progress{0};       // calls returned (the watchdog looks for 60 s without any)
     std::string kernel_stall;            // a long timeout expired while the kernel itself reported the descriptor not ready
     void violation(const std::string& m) { if (first_violation.empty()) first_violation = m; }
 };
@@ -92,6 +93,7 @@ void run_writer(Dir& D, const std::vector<std::vector<long>>& prog, bool shutdow
         if (r[0] == W_SEND) { D.wphase = "send"; ret = D.ws->send(buf.data(), n); en = errno; }
         else if (r[0] == W_WRITE) { D.wphase = "write"; ret = D.ws->write(buf.data(), n); en = errno; }
         else { D.wphase = "writev"; auto iov = split(buf.data(), n, std::max<long>(1, r.at(2)), (uint64_t)r.at(3)); ret = D.ws->writev(iov.data(), (int)iov.size()); en = errno; h.labels.insert("writev"); }
+        h.progress++;
         uint64_t dt = photon::now - t0;
         std::ostringstream op; op << where(D) << ": " << D.wphase << "(" << n << " bytes) at stream offset " << D.written;
         if (ret < 0) {
@@ -155,6 +157,7 @@ void run_reader(Dir& D, const std::vector<std::vector<long>>& prog, bool drain) 
         if (r[0] == R_RECV) { D.rphase = "recv"; ret = D.rs->recv(bufs[0].empty() ? (void*)flat.data() : (void*)bufs[0].data(), n); en = errno; }
         else if (r[0] == R_READ) { D.rphase = "read"; ret = D.rs->read(bufs[0].empty() ? (void*)flat.data() : (void*)bufs[0].data(), n); en = errno; }
         else { D.rphase = "readv"; ret = D.rs->readv(iov.data(), (int)iov.size()); en = errno; h.labels.insert("readv"); }
+        h.progress++;
         uint64_t dt = photon::now - t0;
         std::ostringstream opn; opn << where(D) << ": " << D.rphase << "(" << n << " bytes) at stream offset " << D.received;
         std::string op = opn.str();
@@ -207,11 +210,12 @@ Outcome run_case(const Case& c) {
     h.dirs.resize((size_t)nconn * 2);
     std::atomic<bool> case_done{false};
     std::thread watchdog([&]() {
-        for (int i = 0; i < 6000 && !case_done; i++) std::this_thread::sleep_for(std::chrono::milliseconds(10));
+        long last = -1; int still = 0;
+        while (!case_done && still < 6000) { std::this_thread::sleep_for(std::chrono::milliseconds(10)); long p = h.progress.load(); if (p != last) { last = p; still = 0; } else still++; }
         if (case_done) return;
         std::ostringstream o;
         for (auto& D : h.dirs) { if (!D.writer_done) o << " [" << where(D) << " writer in " << D.wphase << " at offset " << D.written << "]"; if (!D.reader_done) o << " [" << where(D) << " reader in " << D.rphase << " at offset " << D.received << "]"; }
-        vf::finish_now(Outcome::violation("threads still blocked 60 s after the start (every stream timeout is at most 15 s):" + o.str() + (h.first_violation.empty() ? "" : "; earlier: " + h.first_violation)));
+        vf::finish_now(Outcome::violation("no socket call returned for 60 s (every stream timeout is at most 15 s), threads still blocked:" + o.str() + (h.first_violation.empty() ? "" : "; earlier: " + h.first_violation)));
     });
     std::string upath = "/verif/build/scratch/c10-" + std::to_string(getpid()) + ".sock";
     ISocketServer* server = kind == 1 ? new_uds_server(true) : kind == 2 ? new_et_tcp_socket_server() : new_tcp_socket_server();
